@@ -312,13 +312,12 @@ class Translator:
                 return ("struct", (pname, elem + i.v, pi, const), ())
             if b.kind != "ptr" or b.v is None:
                 raise Refuse("subscript of a non-pointer")
+            # a pointer Sym carries the shape of its *pointee* (() for a scalar element)
             aid, off, shape = b.v
-            if shape:
-                stride = 1
-                for d in shape[1:]:
-                    stride *= d
-                return (aid, off + i.v * stride, shape[1:])
-            return (aid, off + i.v, ())
+            stride = 1
+            for d in shape:
+                stride *= d
+            return (aid, off + i.v * stride, shape)
         if k == "UnaryOperator" and n["opcode"] == "*":
             p = self.rvalue(n["inner"][0], st, env)
             if p.kind == "sptr":
@@ -326,7 +325,7 @@ class Translator:
             if p.kind != "ptr" or p.v is None:
                 raise Refuse("dereference of a non-pointer")
             aid, off, shape = p.v
-            return (aid, off, shape[1:] if shape else ())
+            return (aid, off, shape)
         if k == "MemberExpr":
             base = n["inner"][0]
             if n.get("isArrow"):
